@@ -575,6 +575,7 @@ func runC15(c *core.Ctx) core.Meta {
 
 	checkIntegerWidths(c, "R15.13", "Addresses and sizes of duplicated requests are not narrowed.", 5, []widthScope{{rel: robPkg}}, []string{"narrow", "widen-wrapped", "unsigned-diff"}, widthAllowC15)
 	checkFlushFlagReadAfterControl(c)
+	checkMaskWalkedPerByte(c, "R15.15", "In the reorder buffer a write whose mask looks all-dirty through that loop loses its mask on the way down, and the lower level overwrites bytes the requester marked clean.", 0, robPkg)
 	return core.Meta{Level: "other",
 		Explanation: "Structural clauses of the reorder buffer decided on SSA of amd/timing/rob: SEND-DISCIPLINE on every handler (no commit after a failed Send, nothing consumed before a Send), FIFO-only list operations with retirement from Front(), capacity guard before insertion with a >= predicate, FIELDS of duplicated requests/responses by provenance, flush/restart clearing list and table together and gating the pipeline.",
 		NotDecided:  "response timing, widths per cycle (numReqPerCycle) and akita port behaviour; values carried in Data are not compared, only their provenance",
